@@ -207,12 +207,58 @@ def run_model(cases):
     return out
 
 
-def run_impl(cases, timeout=1800):
-    rc, out = sh([os.path.join(BIN, 'harness'), 'exec'], inp='\n'.join(cases) + '\n', timeout=timeout)
-    lines = out.split('\n')[:-1]
+WASM_OPS = ('wcall', 'wexports')
+
+
+def build_wasm():
+    """fresh js/wasm module from the working tree, beside a copy of the package's own entry module"""
+    d = os.path.join(WORK, 'wasm')
+    shutil.rmtree(d, ignore_errors=True)
+    os.makedirs(os.path.join(d, 'src'))
+    os.makedirs(os.path.join(d, 'lib'))
+    env = dict(os.environ, GOOS='js', GOARCH='wasm', GOPROXY='off')
+    env.pop('GOFLAGS', None)
+    rc, out = sh(['go', 'build', '-o', os.path.join(d, 'lib', 'otp.wasm'), './wasm'], cwd=REPO, env=env, timeout=900)
+    if rc:
+        raise RuntimeError('js/wasm build failed: ' + out[-800:])
+    for f in ('index.js', 'wasm_exec.js'):
+        shutil.copy(os.path.join(REPO, 'otp-js', 'src', f), os.path.join(d, 'src', f))
+    return d
+
+
+def run_impl_wasm(cases, timeout=900):
+    d = build_wasm()
+    cf, of = os.path.join(d, 'cases.txt'), os.path.join(d, 'out.txt')
+    with open(cf, 'w') as f:
+        f.write('\n'.join(cases) + '\n')
+    try:
+        rc, out = sh(['node', os.path.join(ROOT, 'tools', 'wasm', 'runner.js'), d, cf, of], timeout=timeout)
+    except subprocess.TimeoutExpired:
+        return ['timeout'] * len(cases)
+    if not os.path.exists(of):
+        return ['module-died'] * len(cases)   # the Go program exited: nothing was answered
+    lines = open(of).read().split('\n')[:-1]
     if len(lines) != len(cases):
-        raise RuntimeError('harness produced %d answers for %d cases (rc=%d): %s' % (len(lines), len(cases), rc, out[-500:]))
+        lines = (lines + ['module-died'] * len(cases))[:len(cases)]
     return lines
+
+
+def run_impl(cases, timeout=1800):
+    widx = [i for i, c in enumerate(cases) if c.split(' ')[0] in WASM_OPS]
+    gidx = [i for i, c in enumerate(cases) if c.split(' ')[0] not in WASM_OPS]
+    res = [None] * len(cases)
+    if gidx:
+        g = [cases[i] for i in gidx]
+        rc, out = sh([os.path.join(BIN, 'harness'), 'exec'], inp='\n'.join(g) + '\n', timeout=timeout)
+        lines = out.split('\n')[:-1]
+        if len(lines) != len(g):
+            raise RuntimeError('harness produced %d answers for %d cases (rc=%d): %s' % (len(lines), len(g), rc, out[-500:]))
+        for i, l in zip(gidx, lines):
+            res[i] = l
+    if widx:
+        for i, l in zip(widx, run_impl_wasm([cases[i] for i in widx])):
+            res[i] = l
+    return res
 
 
 def coq_bytes(s):
@@ -253,6 +299,8 @@ def outcome_match(impl, model):
         return True
     if model.startswith('err:*') and impl.startswith('err:'):
         return True
+    if model.startswith('sprefix:'):   # specification column: a string result with this prefix
+        return impl.startswith('s:' + model[len('sprefix:'):])
     if model.startswith('maybe:'):   # specification column: either rejected or exactly this value
         return impl.startswith('err:') or impl == model[len('maybe:'):]
     if model.endswith(':*') and model.startswith('v:') and impl.startswith(model[:-1]) and not impl.endswith(':-'):
@@ -261,7 +309,7 @@ def outcome_match(impl, model):
 
 
 def nontrivial(case, impl):
-    if impl.startswith('ok:') or impl.startswith('cfg:') or impl.startswith('url:') or impl.startswith('up:') or impl.startswith('v:true') or impl == 'panic':
+    if impl.startswith('ok:') or impl.startswith('cfg:') or impl.startswith('url:') or impl.startswith('up:') or impl.startswith('b:') or (impl.startswith('s:') and not impl.startswith('s:6572726f72')) or impl.startswith('v:true') or impl == 'panic':
         return True
     if impl.startswith('v:false:'):
         try:
@@ -367,6 +415,7 @@ PROPS = {
     'C07': {'streams': [('c07', 3000, 200000)]},
     'C08': {'streams': [('c08', 300, 10000)]},
     'C10': {'streams': [('c10', 1500, 40000)]},
+    'C20': {'streams': [('c20', 1500, 40000)]},
     'C13': {'streams': [('c13', 900, 30000)]},
     'C14': {'streams': [('c14', 1500, 50000)]},
     'C15': {'streams': [('c15', 1500, 60000)]},
